@@ -5,6 +5,7 @@ use std::io::{self, BufRead, Write};
 use std::panic::{catch_unwind, AssertUnwindSafe};
 
 mod deblock_cases;
+mod h263_cases;
 mod util;
 mod yuv_cases;
 
@@ -20,6 +21,9 @@ fn run_line(line: &str) -> String {
         "D" => deblock_cases::image(&rest),
         "J" => deblock_cases::table(),
         "Y" => yuv_cases::image(&rest),
+        "H" => h263_cases::header(&rest),
+        "P" => h263_cases::history(&rest, false),
+        "PX" => h263_cases::history(&rest, true),
         _ => format!("bad-op {}", kind),
     }
 }
